@@ -198,7 +198,9 @@ namespace pika::split_tuple_detail {
                     pika::execution::experimental::sends_stopped<Sender,
                         pika::execution::experimental::empty_env>
 #else
-                    pika::execution::experimental::sender_traits<Sender>::sends_done
+                    // without stdexec the sends_done trait of pika's own adaptors is always false
+                    // although they forward set_stopped; a stored stopped signal is always forwarded
+                    true
 #endif
                     ;
                 if constexpr (sends_stopped)
